@@ -20,7 +20,7 @@ DRAINERS = {"builtins.list", "builtins.tuple", "collections.deque", "builtins.su
             "builtins.any", "builtins.all"}
 PURE_NS = ("numpy.", "scipy.", "math.", "pandas.", "types.", "warnings.", "builtins.", "itertools.", "pyyeti.", "collections.", "os.", "sys.")
 UFUNC = {"numpy.add": "Add", "numpy.subtract": "Sub", "numpy.multiply": "Mult", "numpy.divide": "Div", "numpy.true_divide": "Div"}
-NOT_NONE_TAGS = ("ref", "dref", "tuple", "list", "fn", "ext", "mod", "rmod", "pool", "results", "bin", "cmp", "dictc", "lv", "alloc", "fstr", "iterd")
+NOT_NONE_TAGS = ("ref", "dref", "objident", "tuple", "list", "fn", "ext", "mod", "rmod", "pool", "results", "bin", "cmp", "dictc", "lv", "alloc", "fstr", "iterd")
 
 
 def carries_fn(v):
@@ -266,7 +266,8 @@ class Sim:
 
     def subref(self, ref, items):
         _, oid, shape, sel = ref
-        rank = len(shape) - 1 if is_tag(shape, "tuple") else None
+        sh = shape if shape is not None else self.heap[oid].shape
+        rank = len(sh) - 1 if is_tag(sh, "tuple") else None
         return ("ref", oid, shape, merge_sel(sel, items, rank))
 
     def ref_shape(self, ref):
@@ -583,9 +584,16 @@ class Sim:
             return ("bool", type(node.op).__name__) + tuple(self.snap(self.ev(v, fr)) for v in node.values)
         if isinstance(node, ast.Compare):
             parts = []
-            left = self.snap(self.ev(node.left, fr))
+            ident = all(isinstance(op, (ast.Is, ast.IsNot)) for op in node.ops)
+
+            def operand(e):
+                v = self.ev(e, fr)
+                if ident and is_tag(v, "ref", "dref"):
+                    return ("objident", v[1])          # an identity test looks at the object, not at its content
+                return self.snap(v)
+            left = operand(node.left)
             for op, c in zip(node.ops, node.comparators):
-                r = self.snap(self.ev(c, fr))
+                r = operand(c)
                 parts.append(("cmp", type(op).__name__, left, r))
                 left = r
             return parts[0] if len(parts) == 1 else ("bool", "And") + tuple(parts)
